@@ -427,6 +427,26 @@ func readerReuse(c *dctx, docs []docFile, dir string) {
 		os.WriteFile(p, pdfw.SimplePDF(pages), 0o644)
 		pool = append(pool, docFile{p, "pdf", "PDF with one page whose content stream cannot be decoded"})
 	}
+	// PDFs with a page whose /Contents array names an object the file does not have
+	// between two streams that continue one text object: whatever the reader makes of
+	// that page, it makes the same of it every time
+	for i := 0; i < c.N(4, 20); i++ {
+		r := c.Rand("reuse-ghostcontent", i)
+		tk := fw.NewTokens(r)
+		np := 2 + r.Intn(3)
+		bad := r.Intn(np)
+		var pages []pdfw.SimplePage
+		for pn := 0; pn < np; pn++ {
+			pg := pdfw.SimplePage{W: 612, H: 792, GhostContent: pn == bad}
+			for l := 0; l < 4+r.Intn(3); l++ {
+				pg.Items = append(pg.Items, pdfw.SimpleItem{X: 72, Y: 700 - 16*float64(l), Size: 11, Text: tk.Next() + " " + tk.Next()})
+			}
+			pages = append(pages, pg)
+		}
+		p := filepath.Join(dir, fmt.Sprintf("reuseghost%03d.pdf", i))
+		os.WriteFile(p, pdfw.SimplePDF(pages), 0o644)
+		pool = append(pool, docFile{p, "pdf", "PDF with a dangling reference inside a page's /Contents array"})
+	}
 	// PDFs whose pages share one inherited Resources dictionary (direct /Font
 	// sub-dictionary) while forms bring their own resources naming other fonts
 	// /F1…: anything one page's extraction leaves behind in the shared, cached
